@@ -264,6 +264,13 @@ impl Ctx {
     /// Record a failure: save replay, classify as known finding or violation.
     /// Returns true if it is a listed known finding.
     pub fn record_failure<T: Serialize>(&mut self, campaign: &str, case: &T, fail: &Fail) -> bool {
+        if fail.sig.starts_with("harness:") {
+            // the machinery failed (server did not start, scratch file vanished, a panic inside
+            // the harness itself): exit code 2, never a verdict about the property
+            eprintln!("HARNESS: {} | {}", fail.sig, truncate(&fail.detail, 600));
+            self.extra.insert("child_machinery_failure".into(), Value::Bool(true));
+            return false;
+        }
         if let Some(k) = self.is_known(&fail.sig).cloned() {
             let first = !self.known_hits.contains_key(&k.signature);
             *self.known_hits.entry(k.signature.clone()).or_default() += 1;
@@ -289,6 +296,11 @@ impl Ctx {
             return 0;
         }
         if self.extra.contains_key("child_machinery_failure") {
+            return 2;
+        }
+        let glitches: u64 = self.labels.iter().filter(|(k, _)| k.contains("harness glitches")).map(|(_, v)| *v).sum();
+        if glitches > 3 && glitches * 10 > self.evaluations.max(1) {
+            eprintln!("HARNESS: {glitches} cases could not be run (machinery failures)");
             return 2;
         }
         let wall = self.start.elapsed().as_secs_f64();
@@ -556,6 +568,10 @@ pub fn enclosing_fn(file: &str, line: u32) -> String {
 }
 
 pub fn panic_signature(msg: &str, file: &str, line: u32) -> String {
+    if file.starts_with("vcheck/") || file.starts_with("raftsim/") || file.contains("/harness/vcheck/") || file.contains("/harness/raftsim/") || file.contains("/hsrc/vcheck/") || file.contains("/hsrc/raftsim/") {
+        // a panic raised by the harness's own code
+        return format!("harness: panic at {file}:{line}: {}", truncate(&strip_digits(msg), 100));
+    }
     let short_file = file
         .rsplit_once("/src/")
         .map(|(_, f)| f.to_string())
@@ -679,6 +695,15 @@ where
                     progress(&st);
                     std::process::exit(crate::isolate::RETIRE_EXIT);
                 }
+                Ok(())
+            }
+            Err(f) if f.sig.starts_with("harness:") => {
+                // a transient failure of the machinery (loaded machine, server slow to start):
+                // the case is not judged; too many of them fail the run as a machinery failure
+                let mut st = stats.borrow_mut();
+                st.done_cases += 1;
+                *st.labels.entry("harness glitches (cases not judged)".to_string()).or_default() += 1;
+                eprintln!("HARNESS (case skipped): {} | {}", f.sig, truncate(&f.detail, 300));
                 Ok(())
             }
             Err(f) if known_sigs.contains(&f.sig) => {
